@@ -50,7 +50,7 @@ pub fn c06_conditions() {
     };
     // Known finding: JLE/JNG is taken only when ZF=1 AND SF!=OF (pinned by test_jg_jle)
     let jle_region = id == ID_jle && (f.zf != (f.sf != f.of));
-    vassert_kf!("C06.condition.taken_iff_predicate", take == exp, "KF-C06-jle", jle_region);
+    vassert_kf!("C06.condition.taken_iff_predicate", take == exp, KF_C06_jle, jle_region);
     vassert!("C06.condition.every_mnemonic_known", id != 255);
     vassert!("C06.condition.registers_and_flags", regs(&vm) == er);
     vassert!("C06.condition.memory", vm.mem[w_p] == w_pv);
@@ -77,7 +77,7 @@ pub fn c06_complements() {
     let ta = nt_jumps_condition(w_a, CUR, &mut vm, &mut ctx);
     let tb = nt_jumps_condition(w_b, CUR, &mut vm, &mut ctx);
     let jle_region = ib == ID_jle && (f.zf != (f.sf != f.of));
-    vassert_kf!("C06.complement.exactly_one_taken", ta != tb, "KF-C06-jle", jle_region);
+    vassert_kf!("C06.complement.exactly_one_taken", ta != tb, KF_C06_jle, jle_region);
     vcover!("C06.complement.cover.jg_jle", pair(ID_jg, ID_jle) && !jle_region);
     done_ctx(ctx);
     done(vm);
